@@ -8,6 +8,7 @@ import (
 
 	"github.com/johannesboyne/gofakes3"
 	"github.com/johannesboyne/gofakes3/internal/goskipiter"
+	"github.com/johannesboyne/gofakes3/internal/verifhook"
 )
 
 var (
@@ -252,11 +253,13 @@ func (db *Backend) PutObject(bucketName, objectName string, meta map[string]stri
 	if err != nil {
 		return result, err
 	}
+	verifhook.At("s3mem.put.after-read")
 
 	err = gofakes3.MergeMetadata(db, bucketName, objectName, meta)
 	if err != nil {
 		return result, err
 	}
+	verifhook.At("s3mem.put.before-lock")
 
 	db.lock.Lock()
 	defer db.lock.Unlock()
